@@ -66,12 +66,14 @@ class Batch(object):
 class World(object):
     current = None
 
-    def __init__(self, scheduler='default', seed=0, start_subwf_via_rpc=False):
+    def __init__(self, scheduler='default', seed=0, start_subwf_via_rpc=False, ids='rand'):
         CONF = mdb.boot()
         self.CONF = CONF
         World.current = self
         self.rnd = random.Random(seed)
         self.sched_kind = scheduler
+        self.ids = ids               # order of generated row ids: 'rand' (uuid4) | 'asc' | 'desc' (creation order / reversed)
+        self.id_counter = 0
         self.now = 0
         self.msgs = {}
         self.msg_order = []
@@ -114,7 +116,14 @@ class World(object):
         CONF.set_override('scheduler_type', self.sched_kind)
         CONF.set_override('pickup_job_after', 1.0, 'scheduler')
         self._saved = dict(now=lib_utils.utc_now_sec, impl=rpc_base._IMPL_CLIENT, threading=post_tx_queue.threading,
-                           sched=sched_base._SCHEDULER, sched_impl=sched_base._SCHEDULER_IMPL)
+                           sched=sched_base._SCHEDULER, sched_impl=sched_base._SCHEDULER_IMPL, uuid=lib_utils.generate_unicode_uuid)
+        if self.ids in ('asc', 'desc'):
+            # the engine reads sibling task rows in primary-key order: make that order a controlled schedule dimension
+            def ordered_uuid():
+                world.id_counter += 1
+                n = world.id_counter if world.ids == 'asc' else (0xffffffff - world.id_counter)
+                return '%08x-0000-4000-8000-%012x' % (n, world.rnd.getrandbits(48))
+            lib_utils.generate_unicode_uuid = ordered_uuid
         lib_utils.utc_now_sec = lambda: BASE + datetime.timedelta(seconds=world.now)
         timeutils.set_time_override(BASE)
         mdb.wipe()
@@ -131,6 +140,10 @@ class World(object):
             def _mk(self, ctx, method, sync, kwargs):
                 target = 'executor' if self.topic == CONF.executor.topic else 'engine'
                 cd = ser.serialize_context(ctx) if ctx is not None else {}
+                if cd.get('redelivered'):
+                    # "redelivered" is a property of one delivery (set by the transport), not of the sender's
+                    # context: a message sent while handling a redelivered request is itself a first delivery
+                    cd = dict(cd, redelivered=False)
                 kw = {k: ser.serialize_entity(ctx, v) for k, v in kwargs.items()}
                 return world._new_msg(target, method, cd, kw, sync)
 
@@ -227,6 +240,7 @@ class World(object):
         if self.lpoll is not None and not self.lpoll.done:
             self.lpoll.abandon()
         self.lib_utils.utc_now_sec = self._saved['now']
+        self.lib_utils.generate_unicode_uuid = self._saved['uuid']
         rpc_base._IMPL_CLIENT = self._saved['impl']
         self.post_tx_queue.threading = self._saved['threading']
         self.sched_base._SCHEDULER = None
